@@ -306,11 +306,17 @@ def check_case(case, ctx):
     # solve() handed a dispatcher on which part of the work is already done
     n_pre = case["seed"] % (n + 1)
     inst_pre = build_instance(inst)
-    d_pre = Dispatcher(inst_pre, solver.ready_operations_filter)
+    own_filter = [solver.ready_operations_filter, None, FILTER_FUNCS["dominated_operations"]][case["seed"] % 3]
+    d_pre = Dispatcher(inst_pre, own_filter)
     for jj, pp, mm2, _s, _e in m.order[:n_pre]:
         d_pre.dispatch(inst_pre.jobs[jj][pp], mm2)
     random.seed(case["seed"] + 2)
     res = solver.solve(inst_pre, d_pre)
+    ctx.check(
+        d_pre.ready_operations_filter is own_filter,
+        "solver-changed-dispatcher-filter",
+        "solve(instance, dispatcher) replaced the ready_operations_filter of the dispatcher it was handed",
+    )
     rows_pre = fp.schedule_rows(res)
     ctx.check(
         res.is_complete() and feasible.is_complete(dur, rows_pre),
